@@ -191,6 +191,37 @@ func (P *Program) VerifyFunction(fn *ssa.Function, cfg *RunCfg, opts VerifyOpts)
 		o.ValTerms = vt
 	}
 	solveAll(ex, final, opts.TimeoutMs, true, opts.Workers)
+	// independence: an obligation that failed was nevertheless assumed afterwards
+	// (assert-then-assume).  Re-decide the later obligations without those assumptions, so
+	// that one property's failure cannot hide another's.
+	skip := map[int]bool{}
+	first := -1
+	for _, o := range final {
+		if o.Status != "discharged" && o.HypIdx >= 0 && o.HypIdx < len(ex.hyps) {
+			skip[o.HypIdx] = true
+			if first < 0 || o.HypIdx < first {
+				first = o.HypIdx
+			}
+		}
+	}
+	if len(skip) > 0 {
+		var again []*Obligation
+		for _, o := range final {
+			if o.Status == "discharged" && o.Solver != "syntactic" && o.NHyps > first {
+				o.prevSolver, o.prevMillis = o.Solver, o.Millis
+				o.Status, o.Solver = "", ""
+				again = append(again, o)
+			}
+		}
+		skipHyps = skip
+		solveAll(ex, again, opts.TimeoutMs, true, opts.Workers)
+		skipHyps = nil
+		for _, o := range again {
+			if o.Status != "discharged" {
+				o.Raw = "holds only if an earlier failing obligation is assumed; " + o.Raw
+			}
+		}
+	}
 	res.Obls = final
 	res.Covers = ex.covers
 	seen := map[string]bool{}
@@ -237,6 +268,9 @@ func (r *FnResult) Print(verbose bool) {
 	for _, o := range r.Obls {
 		if o.Status != "discharged" || verbose {
 			fmt.Printf("   [%s] %s (%s, %d ms)\n", o.Status, o.Name, o.Solver, o.Millis)
+			if o.Class == "variant" {
+				fmt.Printf("        %s\n", o.Raw)
+			}
 			if o.Status == "refuted" {
 				var ks []string
 				for k, v := range o.Model {
